@@ -65,10 +65,12 @@ func cmpOf(cond ast.Expr, leftHint, rightHint, where string) string {
 		die("%s: condition %q is not a comparison", where, src(cond))
 	}
 	x, y := src(be.X), src(be.Y)
+	// both operands must be the bare field / variable: any arithmetic on either side is a shape this translator does not know
+	isLeft := func(e string) bool { return strings.HasSuffix(e, "."+leftHint) && strings.Count(e, ".") == 1 && !strings.ContainsAny(e, " +-*/()") }
 	switch {
-	case strings.Contains(x, leftHint) && (y == rightHint || strings.Contains(y, rightHint)):
+	case isLeft(x) && y == rightHint:
 		return cmpName[be.Op]
-	case strings.Contains(y, leftHint) && (x == rightHint || strings.Contains(x, rightHint)):
+	case isLeft(y) && x == rightHint:
 		return cmpName[flip[be.Op]]
 	}
 	die("%s: condition %q does not compare %s with %s", where, src(cond), leftHint, rightHint)
